@@ -26,21 +26,28 @@ pack count <= bound; distribution sums to total with digit-sum many buckets;
 on the real repository: key_count() == sum of per-pack counts and
 pack count <= digit sum after every write group.
 
-Mutants this was built against (scratch worktree, all caught):
-  M1 `next_pack_rev_count >= pack_distribution[0]` -> `>`  (a pack exactly a
-     bucket large gets recombined: bound/T2)
-  M2 `if pack_operations[-1][0] >= pack_distribution[0]` -> `>` (bucket not
-     closed when exactly full)
-  M3 `len(existing_packs) <= len(pack_distribution)` -> `<`  (plans when
-     exactly at the bound: idle law; single-pack AssertionError)
-  M4 `_max_pack_count(total) >= total_packs` -> `>` in _do_autopack
-  M5 dropping `existing_packs.sort(reverse=True)`
-  M6 pack_distribution: `10**exponent` -> `10**(exponent+1)` / result not reversed
-  M7 `pack_distribution[0] = -next_pack_rev_count` -> `del pack_distribution[0]`
-     (partially used bucket dropped: IndexError only for later packs)
-  M8 `_max_pack_count`: `if not total_revisions: return 1` -> `return 0`
-Harmless (stay clean): final loop replaced by sum()/comprehension;
-`existing_packs.pop(0)` replaced by index iteration.
+Mutants this was built against (scratch worktree; all caught).  "oracle" =
+VIOLATION with a concrete failing input, "T2" = the planner still satisfies
+the property (the theorems need neither the sort nor exact bucket closing) but
+no longer computes the modelled function: VIOLATION ... no-failing-input-found
+naming the first differing case.
+  M1  `next_pack_rev_count >= pack_distribution[0]` -> `>`            T2
+  M2  `if pack_operations[-1][0] >= pack_distribution[0]` -> `>`      T2
+  M3  `len(existing_packs) <= len(pack_distribution)` -> `<`          oracle
+      (plans `[[0, []]]` when exactly at the bound; AssertionError for total > sum)
+  M4  `_max_pack_count(total) >= total_packs` -> `>` in _do_autopack  oracle
+  M5  dropping `existing_packs.sort(reverse=True)`                    T2
+  M6a pack_distribution: `10**exponent` -> `10**(exponent+1)`         oracle
+  M6b pack_distribution: result not reversed                          T2
+  M7  `pack_distribution[0] = -next_pack_rev_count` -> `del pack_distribution[0]`
+      (partially used bucket dropped: IndexError only for later packs) oracle
+  M8  `_max_pack_count`: `if not total_revisions: return 1` -> 0      oracle
+  M9  zero-revision packs no longer skipped in _do_autopack           oracle
+  M10 inner loop `if next_pack_rev_count >= 0` -> `> 0` (an exactly used
+      bucket stays as a 0 bucket: empty combination planned)          oracle
+Harmless (stay clean): final loop replaced by sum()/comprehension, the while /
+pop(0) loop replaced by `for ... in sorted(..., reverse=True)`, digit sum by
+divmod.
 """
 import glob
 import json
